@@ -311,9 +311,11 @@ def operand_split_rule(ctx, I: Interp, rule: str) -> int:
     return n
 
 
-def line_record_rule(ctx, I: Interp, rule: str) -> int:
+def line_record_rule(ctx, I: Interp, rule: str, only_memory_operands: bool = False) -> int:
     n = 0
     for label, tpl, expect in instruction_lines():
+        if only_memory_operands and "[" not in expect:
+            continue
         outs = parse_line(I, tpl)
         n += 1
         ctx.check(outs == [("instruction", expect)], rule, f"LineParser.parse[{label}]", f"{tpl.render()!r} gives {outs}"[:240],
